@@ -141,6 +141,18 @@ def gen_table(rng, stream, i, names, vers, build, top=False, pdep=0.45):
             if rng.random() < 0.4:
                 blk += [{"k": "raw", "text": "} else {"}, {"k": "cmd", "text": "envSet(%s_FL, 2)" % n.upper()}]
             blk.append({"k": "raw", "text": rng.choice(["}", "  }"])})
+            later = [m for m in names[i + 1:] if stream != "cf" or m in build]
+            if rng.random() < 0.25 and later:
+                # a setup line INSIDE the table's own block (D74 / O8): in a block that applies a declared product (the expander nests
+                # its `if (type …) {` block there; harmless without an else branch, D74(b) with one); in a block that does not apply
+                # (`flavor == Darwin`) a required product that is not there at all (D74(a): the expansion refuses it)
+                if "Darwin" in blk[0]["text"]:
+                    inner = {"k": "setup", "optional": False, "name": rng.choice(ABSENT), "spec": None, "flags": [], "deco": {}, "in_block": "inactive"}
+                else:
+                    m = rng.choice(later)
+                    inner = {"k": "setup", "optional": False, "name": m, "spec": gen_spec(rng, stream, m, vers, build), "flags": [], "deco": {},
+                             "in_block": "active_else" if len(blk) > 3 else "active"}
+                blk.insert(rng.randint(1, 2), inner)
             lines[at:at] = blk
     return lines
 
